@@ -3,4 +3,212 @@ import DC.Model.Recipes
 
 namespace DC.Recipes
 
+/-! ### Lock -/
+
+def LockSys.Inv (s : LockSys) : Prop := s.holding.length = if s.st.held then 1 else 0
+
+theorem LockSys.inv_init : LockSys.Inv {} := by simp [LockSys.Inv]
+
+theorem LockSys.inv_step (s : LockSys) (e : Ev) (h : s.Inv) : (s.step e).1.Inv := by
+  cases e with
+  | acquire who =>
+    unfold LockSys.Inv at *
+    cases hh : s.st.held <;> simp_all [LockSys.step, LockSt.tryAcquire]
+  | release who =>
+    unfold LockSys.Inv at *
+    by_cases hc : s.holding.contains who = true
+    · have hm : who ∈ s.holding := by simpa using hc
+      have hpos : 0 < s.holding.length := List.length_pos_of_mem hm
+      simp only [LockSys.step, hc, if_true, LockSt.release, List.length_erase_of_mem hm]
+      cases hh : s.st.held <;> simp_all
+    · simp only [LockSys.step, hc]
+      exact h
+
+theorem LockSys.inv_run (s : LockSys) (evs : List Ev) (h : s.Inv) : (s.run evs).Inv := by
+  induction evs generalizing s with
+  | nil => exact h
+  | cons e es ih => exact ih _ (LockSys.inv_step s e h)
+
+/-! ### RLock -/
+
+def RLockSys.Inv (s : RLockSys) : Prop :=
+  (∀ a, s.depth a = if s.st.owner = some a then s.st.count else 0) ∧
+  (s.st.owner = none → s.st.count = 0)
+
+theorem RLockSys.inv_init : RLockSys.Inv {} := by simp [RLockSys.Inv]
+
+theorem RLockSys.step_acquire_ok (s : RLockSys) (who : Nat)
+    (hc : s.st.owner = some who ∨ s.st.count = 0) :
+    s.step (.acquire who) =
+      ({ st := { owner := some who, count := s.st.count + 1 },
+         depth := fun c => if c = who then s.depth c + 1 else s.depth c }, true) := by
+  have : (s.st.owner = some who || s.st.count == 0) = true := by
+    simpa using hc
+  simp [RLockSys.step, RLockSt.tryAcquire, this]
+
+theorem RLockSys.step_acquire_fail (s : RLockSys) (who : Nat)
+    (hc : ¬ (s.st.owner = some who ∨ s.st.count = 0)) :
+    s.step (.acquire who) = (s, false) := by
+  have : (s.st.owner = some who || s.st.count == 0) = false := by
+    simpa using hc
+  simp [RLockSys.step, RLockSt.tryAcquire, this]
+
+theorem RLockSys.step_release_ok (s : RLockSys) (who : Nat)
+    (hc : s.st.owner = some who ∧ 0 < s.st.count) :
+    s.step (.release who) =
+      ({ st := { s.st with count := s.st.count - 1 },
+         depth := fun c => if c = who then s.depth c - 1 else s.depth c }, true) := by
+  have : (s.st.owner = some who && s.st.count > 0) = true := by
+    simpa using hc
+  simp [RLockSys.step, RLockSt.release, this]
+
+theorem RLockSys.step_release_fail (s : RLockSys) (who : Nat)
+    (hc : ¬ (s.st.owner = some who ∧ 0 < s.st.count)) :
+    s.step (.release who) = (s, false) := by
+  have : (s.st.owner = some who && s.st.count > 0) = false := by
+    simpa using hc
+  simp [RLockSys.step, RLockSt.release, this]
+
+theorem RLockSys.inv_step (s : RLockSys) (e : Ev) (h : s.Inv) : (s.step e).1.Inv := by
+  obtain ⟨h1, h2⟩ := h
+  cases e with
+  | acquire who =>
+    by_cases hc : s.st.owner = some who ∨ s.st.count = 0
+    · rw [RLockSys.step_acquire_ok s who hc]
+      refine ⟨fun a => ?_, by simp⟩
+      simp only [Option.some.injEq]
+      by_cases ha : a = who
+      · subst ha
+        simp only [if_true]
+        rw [h1 a]
+        rcases hc with hc | hc
+        · simp [hc]
+        · split <;> simp [hc]
+      · have ha' : ¬ who = a := fun h => ha h.symm
+        simp only [ha, ha', if_false]
+        rw [h1 a]
+        rcases hc with hc | hc
+        · simp [hc, ha']
+        · split <;> simp [hc]
+    · rw [RLockSys.step_acquire_fail s who hc]
+      exact ⟨h1, h2⟩
+  | release who =>
+    by_cases hc : s.st.owner = some who ∧ 0 < s.st.count
+    · rw [RLockSys.step_release_ok s who hc]
+      obtain ⟨ho, hc⟩ := hc
+      refine ⟨fun a => ?_, by simp [ho]⟩
+      simp only [ho, Option.some.injEq]
+      by_cases ha : a = who
+      · subst ha
+        simp only [if_true]
+        rw [h1 a]; simp [ho]
+      · have ha' : ¬ who = a := fun h => ha h.symm
+        simp only [ha, ha', if_false]
+        rw [h1 a]; simp [ho, ha']
+    · rw [RLockSys.step_release_fail s who hc]
+      exact ⟨h1, h2⟩
+
+theorem RLockSys.inv_run (s : RLockSys) (evs : List Ev) (h : s.Inv) : (s.run evs).Inv := by
+  induction evs generalizing s with
+  | nil => exact h
+  | cons e es ih => exact ih _ (RLockSys.inv_step s e h)
+
+theorem RLockSys.inv_facts (s : RLockSys) (h : s.Inv) :
+    (∀ a b, 0 < s.depth a → 0 < s.depth b → a = b) ∧
+    (∀ a, 0 < s.depth a → s.st.owner = some a ∧ s.st.count = s.depth a) ∧
+    ((∀ a, s.depth a = 0) → s.st.count = 0) := by
+  obtain ⟨h1, h2⟩ := h
+  have key : ∀ a, 0 < s.depth a → s.st.owner = some a ∧ s.st.count = s.depth a := by
+    intro a ha
+    have := h1 a
+    by_cases ho : s.st.owner = some a
+    · rw [if_pos ho] at this; exact ⟨ho, this.symm⟩
+    · rw [if_neg ho] at this; omega
+  refine ⟨fun a b ha hb => ?_, key, fun hz => ?_⟩
+  · have := (key a ha).1
+    rw [(key b hb).1] at this
+    exact (Option.some.inj this).symm
+  · cases ho : s.st.owner with
+    | none => exact h2 ho
+    | some o =>
+      have := h1 o
+      rw [if_pos ho, hz o] at this
+      exact this.symm
+
+/-! ### Semaphore -/
+
+def SemSys.Inv (n : Nat) (s : SemSys) : Prop :=
+  s.holding.length + s.st.free = n ∧ s.st.limit = n
+
+theorem SemSys.inv_step (n : Nat) (s : SemSys) (e : Ev) (h : s.Inv n) : (s.step e).1.Inv n := by
+  obtain ⟨h1, h2⟩ := h
+  cases e with
+  | acquire who =>
+    by_cases hc : s.st.free > 0
+    · simp only [SemSys.step, SemSt.tryAcquire, hc, if_true]
+      refine ⟨?_, h2⟩
+      simp only [List.length_cons]
+      omega
+    · simp only [SemSys.step, SemSt.tryAcquire, hc, if_false]
+      exact ⟨h1, h2⟩
+  | release who =>
+    by_cases hc : s.holding.contains who = true
+    · have hm : who ∈ s.holding := by simpa using hc
+      have hpos : 0 < s.holding.length := List.length_pos_of_mem hm
+      by_cases hl : s.st.limit > s.st.free
+      · simp only [SemSys.step, SemSt.release, hc, hl, if_true]
+        refine ⟨?_, h2⟩
+        simp only [List.length_erase_of_mem hm]
+        omega
+      · simp only [SemSys.step, SemSt.release, hc, hl, if_true, if_false]
+        exact ⟨h1, h2⟩
+    · simp only [SemSys.step, hc]
+      exact ⟨h1, h2⟩
+
+theorem SemSys.inv_run (n : Nat) (s : SemSys) (evs : List Ev) (h : s.Inv n) : (s.run evs).Inv n := by
+  induction evs generalizing s with
+  | nil => exact h
+  | cons e es ih => exact ih _ (SemSys.inv_step n s e h)
+
+/-! ### Averager -/
+
+theorem AvgSt.run_cons (s : AvgSt) (e : AvgEv) (es : List AvgEv) :
+    AvgSt.run s (e :: es) = AvgSt.run (s.step e) es := rfl
+
+/-! ### throttle -/
+
+theorem Bucket.sec_le (C S : Nat) (hc : 0 < C) : (S : Int) ≤ (C : Int) * S := by
+  have h1 : (1 : Int) ≤ (C : Int) := by omega
+  have := Int.mul_le_mul_of_nonneg_right h1 (Int.natCast_nonneg S)
+  simpa using this
+
+theorem Bucket.pred_mul (C S : Int) : (C - 1) * S = C * S - S := by
+  rw [Int.sub_mul, Int.one_mul]
+
+/-- the three outcomes of an attempt -/
+theorem Bucket.attempt_cases (b : Bucket) (now : Int) :
+    (b.tally + (now - b.last) > (b.count : Int) * b.seconds ∧
+      b.attempt now = ({ b with last := now, tally := (b.count : Int) * b.seconds - b.seconds }, none)) ∨
+    (b.tally + (now - b.last) ≤ (b.count : Int) * b.seconds ∧ b.tally + (now - b.last) ≥ b.seconds ∧
+      b.attempt now = ({ b with last := now, tally := b.tally + (now - b.last) - b.seconds }, none)) ∨
+    (b.tally + (now - b.last) ≤ (b.count : Int) * b.seconds ∧ b.tally + (now - b.last) < b.seconds ∧
+      b.attempt now = (b, some ((b.seconds : Int) - (b.tally + (now - b.last))))) := by
+  by_cases h1 : b.tally + (now - b.last) > (b.count : Int) * b.seconds
+  · left
+    refine ⟨h1, ?_⟩
+    simp only [Bucket.attempt, h1, if_true, Bucket.pred_mul]
+  · by_cases h2 : b.tally + (now - b.last) ≥ b.seconds
+    · right; left
+      refine ⟨by omega, h2, ?_⟩
+      simp only [Bucket.attempt, h1, h2, if_true, if_false]
+    · right; right
+      refine ⟨by omega, by omega, ?_⟩
+      simp only [Bucket.attempt, h1, h2, if_false]
+
+theorem Bucket.passes_cons (b : Bucket) (now : Int) (rest : List Int) :
+    b.passes (now :: rest) =
+      (if (b.attempt now).2 = none then [now] else []) ++ (b.attempt now).1.passes rest := by
+  rw [Bucket.passes]
+  rcases h : b.attempt now with ⟨b', _ | d⟩ <;> simp
+
 end DC.Recipes
